@@ -430,19 +430,21 @@ Section C12.
   Lemma nt_den (HT : Trans) fuel : forall c : list T,
     odd c ->
     exists ds, (forall v, den teqb c v = den teqb (nt fuel c) v + drops_den ds v)
-               /\ Forall (justified (nt fuel c)) ds.
+               /\ Forall (justified (nt fuel c)) ds
+               /\ length c = (length (nt fuel c) + 2 * length ds)%nat.
   Proof.
     induction fuel as [|f IH]; intros c Hodd.
-    - exists []. cbn [non_trivial drops_den]. split; [intros; lia|constructor].
+    - exists []. cbn [non_trivial drops_den length]. split; [intros; lia|split; [apply Forall_nil|now rewrite Nat.mul_0_r, Nat.add_0_r]].
     - cbn [non_trivial]. destruct (find_pair c) as [[ri ai]|] eqn:E.
-      2:{ exists []. cbn [drops_den]. split; [intros; lia|constructor]. }
+      2:{ exists []. cbn [drops_den length]. split; [intros; lia|split; [apply Forall_nil|now rewrite Nat.mul_0_r, Nat.add_0_r]]. }
       destruct (step_facts c ri ai Hodd E) as (aid & r & a' & SF).
       pose proof (sf_odd _ _ _ _ _ SF) as Ho'. destruct (sf_other _ _ _ _ _ SF) as [Ia' Hle].
-      destruct (IH _ Ho') as (ds & D & J). exists ((r, aid) :: ds). split.
+      destruct (IH _ Ho') as (ds & D & J & L). exists ((r, aid) :: ds). split; [|split].
       + intros v. rewrite (step_den _ _ _ _ _ SF v), D. cbn [drops_den]. lia.
       + constructor; [|exact J]. split; [exact (sf_ok _ _ _ _ _ SF)|]. cbn [snd covered].
         destruct (nt_cover HT f _ Ho' (Some a') Ia') as (x' & Ix & Lx).
         exists x'. split; [exact Ix|]. eapply le_trans; eauto.
+      + destruct (sf_len _ _ _ _ _ SF) as [L3 L2]. cbn [length]. unfold term in *. lia.
   Qed.
 
   (** * the flattened and simplified input *)
@@ -632,7 +634,7 @@ Section C12.
       apply (trivial_merge_spec teqb teqb_spec) in E2; [|exact Ho].
       eapply (Resolves_ext teqb); [|exact E2]. intros u. unfold m, flat_simplified.
       apply (simplify_den teqb teqb_spec).
-    - right. destruct (nt_den HT (length m) m Ho) as (ds & D & J). exists ds.
+    - right. destruct (nt_den HT (length m) m Ho) as (ds & D & J & _). exists ds.
       split; [intros v; rewrite <- Hden; apply D|]. split; [exact J|]. split.
       + intros t Hpos. rewrite <- Hden in Hpos. apply nt_cover; auto.
         apply count_pos_in. pose proof (den_count m t) as DC.
